@@ -229,7 +229,7 @@ func c05Gen(t *rapid.T) c05Case {
 }
 
 func TestVerif_C05(t *testing.T) {
-	vfRun(t, vfSub[c05Case]{Prop: "C05", Name: "gen", Checks: vfN(120000, 6000000), Gen: c05Gen, Check: c05Check,
+	vfRun(t, vfSub[c05Case]{Prop: "C05", Name: "gen", Checks: vfN(120000, 24000000), Gen: c05Gen, Check: c05Check,
 		Sample: func(c c05Case) any {
 			return map[string]any{"len": len(c.X), "limit": c.Limit, "chunks": c.Chunks, "eof_with_data": c.EOFWithData, "fault_at": c.FaultAt, "fault_with_data": c.FaultData, "file": c.File, "x": vfQ(c.X[:min(60, len(c.X))])}
 		}})
